@@ -78,6 +78,17 @@ def run(res, replay=None):
                'end_time': 4.0}
     cases.append({'spec': ev_spec, 'orders': [], 'renamings': [{'a': 'A', 'b': 'AB', 'c': 'ABC'}, {'a': 'pop', 'b': 'pop_1', 'c': 'p'}],
                   'drop_unsampled': False})
+    # designed: an unsampled deme that NO lineage can reach, listed BETWEEN two demes that are visited (matrices across demes must keep
+    # its row and column where its name is), and the same with the two unsampled demes omitted (completed by the constructor)
+    if not replay:
+        gh_spec = {'n_items': [['a', 2], ['b', 0], ['c', 1]], 'model': {'kind': 'kingman'},
+                   'pop_sizes': {'a': {'0.0': 1.0}, 'b': {'0.0': 2.0}, 'c': {'0.0': 0.5}},
+                   'migration_rates': {'a>c': {'0.0': 0.7}, 'c>a': {'0.0': 0.3}}, 'end_time': None}
+        cases.append({'spec': gh_spec, 'orders': [[2, 1, 0], [1, 0, 2]], 'renamings': [{'a': 'z', 'b': 'y', 'c': 'x'}], 'drop_unsampled': True})
+        gh2 = {'n_items': [['a', 3], ['b', 0], ['c', 0]], 'model': {'kind': 'kingman'},
+               'pop_sizes': {'a': {'0.0': 1.0}, 'b': {'0.0': 2.0}, 'c': {'0.0': 0.5}},
+               'migration_rates': {'a>c': {'0.0': 0.7}, 'c>a': {'0.0': 0.3}}, 'end_time': None}
+        cases.append({'spec': gh2, 'orders': [[1, 2, 0]], 'renamings': [], 'drop_unsampled': True})
     for hs in seeds:
         orc.run_oracle(res, 'naming', cases, hashseeds=None if hs == '0' else [hs] * len(cases), chunk=1)
     # exact correspondence of state spaces / rewards on the unsorted configurations
